@@ -4,7 +4,7 @@ sequences the documented timeline model admits (more than one only at float boun
 import itertools
 from fractions import Fraction as Fr
 from .. import boot
-from ..refmodel import timelines, cmp_over, near, fr, P, A, R, S, C, F
+from ..refmodel import timelines, cmp_over, tick_over, near, fr, P, A, R, S, C, F
 from ..world import World, site_of
 
 boot.load()
@@ -88,7 +88,7 @@ def match(tl, k, ram, states, mem, result, n):
     # an OOM at an earlier tick of this timeline would have ended it: checked incrementally,
     # because candidates that predicted 'over' at an earlier tick were dropped then
     t = tl[k - 1]
-    c = cmp_over(t.mem, ram, t.lit)
+    c = tick_over(t, ram)
     exp_ok_states = [C] * t.op + [C if t.done else R] + [A] * (n - t.op - 1)
     exp_oom_states = [C] * t.op + [F] * (n - t.op)
     last = (k == len(tl))
@@ -112,6 +112,8 @@ def match(tl, k, ram, states, mem, result, n):
         return False, f"model: container still running at tick {k} (of {len(tl)})"
     if t.mem is not None and mem is not None and not near(Fr(mem), t.mem):
         return False, f"model: memory {float(t.mem)} at tick {k}, observed {mem}"
+    if t.mem is None and t.cap is not None and mem is not None and Fr(mem) > t.cap and not near(Fr(mem), t.cap):
+        return False, f"model: memory at most {float(t.cap)} at tick {k} (no segment of the operator states more), observed {mem}"
     return True, ""
 
 
